@@ -88,9 +88,9 @@ theorem readLenDet_lenDet (pos n : Nat) (rest : Bits) :
     simp only [h2, h3, if_true, if_false]
     rw [readNat_natToBits _ _ (by omega)]
     simp only [Except.ok.injEq, Prod.mk.injEq, List.length_append, natToBits_length]
-    refine ⟨by omega, St.eq_of_pos _ (by omega)⟩
+    exact ⟨by omega, trivial⟩
   have key : ∀ v k, 192 < v → v < 256 →
-      (if v = 0xc1 then (.ok (16384, ⟨pos + 8, rest⟩) : DecM (Nat × St))
+      (if v = 0xc1 then (.ok (16384, ⟨pos + 8, rest⟩) : Uper.DecM (Nat × St))
        else if v = 0xc2 then .ok (32768, ⟨pos + 8, rest⟩)
        else if v = 0xc3 then .ok (49152, ⟨pos + 8, rest⟩)
        else if v = 0xc4 then .ok (65536, ⟨pos + 8, rest⟩)
@@ -179,7 +179,7 @@ theorem decNsLength_enc {n : Nat} (pos : Nat) (rest : Bits) (h1 : 1 ≤ n) (h : 
   simp only [Bool.not_false, if_true]
   rw [readNat_natToBits _ rest (by omega)]
   simp only [Except.ok.injEq, Prod.mk.injEq]
-  exact ⟨by omega, St.eq_of_pos _ (by omega)⟩
+  exact ⟨by omega, trivial⟩
 
 /-! ### constrained whole numbers -/
 
